@@ -35,11 +35,13 @@ func register(f *family) { families[f.name] = f }
 
 // An oracle checks a property statement directly on the real code.
 type oracleFailure struct {
-	Property string      `json:"property"`
-	What     string      `json:"what"`
-	Family   string      `json:"family,omitempty"`
-	Case     string      `json:"case,omitempty"`
-	Detail   interface{} `json:"detail,omitempty"`
+	Property string `json:"property"`
+	// Signature: stable id of the KIND of failure (matched against known_findings.json)
+	Signature string      `json:"signature,omitempty"`
+	What      string      `json:"what"`
+	Family    string      `json:"family,omitempty"`
+	Case      string      `json:"case,omitempty"`
+	Detail    interface{} `json:"detail,omitempty"`
 }
 
 type oracleStats struct {
